@@ -117,4 +117,16 @@ PROPS = {
         "assumptions": ["the connection is bound (NewBroadcastUDPConn with a non-nil address) when writing; fragments, the UDP length field and received checksums are not examined by the reader nor by the specification"],
         "trusted_base": ["modelled, not verified: nclient4 udp4pkt, checksum helpers, BroadcastRawUDPConn.ReadFrom/WriteTo; the scripted in-memory PacketConn"],
     },
+    "C03": {
+        "coq_files": BASE + ["Label/", "V4/", "V6/", "Raw/", "Props/C03.v"],
+        "model_is_spec": True,
+        "rule": "structure-aware mutation (byte set/flip, truncate, extend, duplicate/delete slice) of a generated corpus holding every option type of the ParseOption table "
+                "(v6 messages and relay chains, ztp/netboot-shaped vendor options, v4 packets with well-formed typed options), plus random strings; every entry point "
+                "(v4 packet / option list, v6 FromBytes / MessageFromBytes / RelayMessageFromBytes / ParseOption, DUIDFromBytes, labels, Archs, raw frames) under recover + watchdog, "
+                "verdict class compared with the model; for each accepted input <= 4096 octets every niladic exported method reachable by reflection (value, options, wrappers, "
+                "returned library values one level deep), builders, relay decapsulation, MAC extraction, ztpv4/ztpv6, netboot extractors; netboot conversations of 0..4 messages; "
+                "non-trivial = distinct case",
+        "assumptions": ["String/Summary/LongString go through fmt and regexp, which the model abstracts as total; they are exercised by the harness only"],
+        "trusted_base": ["modelled, not verified: all decoding entry points; observers are exercised on the real code only (recover + watchdog)"],
+    },
 }
